@@ -185,9 +185,9 @@ func cmJudge(c *Ctx, j *Job, res *proto.Result) {
 			switch dc.line.Kind {
 			case "local":
 				if dc.line.Unspec {
-				break
-			}
-			if !strings.HasPrefix(label, "local ") || !strings.Contains(label, fmt.Sprintf("= %d", dc.line.ID)) {
+					break
+				}
+				if !strings.HasPrefix(label, "local ") || !strings.Contains(label, fmt.Sprintf("= %d", dc.line.ID)) {
 					prob = append(prob, fmt.Sprintf("label %q does not present a local with value %d", label, dc.line.ID))
 				}
 			case "global":
